@@ -378,6 +378,27 @@ Proof.
 Qed.
 Print Assumptions C15_bitcoind_reorg_emits_the_evolution.
 
+(** The height-based poller hands over one block per height above the
+    client's: [b1] (off the client's branch: the reorg procedure runs up to its
+    height) and then its successors [rest].  Together the client emits the
+    disconnects of the whole old branch and the connects of the whole new one. *)
+Theorem C15_bitcoind_poller_handover : forall t o os b1 nsame ns rest h base,
+  0 <= h - Z.of_nat (length os) ->
+  dlinked t (o :: os) h base ->
+  dlinked t ([b1] ++ nsame :: ns) (h + 1) base ->
+  differ os ns -> bh nsame <> bh o ->
+  alinked t (bh b1) (h + 2) rest ->
+  exists best,
+    on_blocks t (meta_of h o) (map bh (b1 :: rest)) =
+    Some (discs h (o :: os) ++ conns (h - Z.of_nat (length os)) (rev (b1 :: nsame :: ns) ++ rest), best) /\
+    m_hash best = bh (match list.last rest with Some b => b | None => b1 end).
+Proof.
+  intros t o os b1 nsame ns rest h base. unfold on_blocks.
+  rewrite (eq_refl : bitcoind_reorg_disconnects_own_hash = true).
+  exact (poller_handover_emits t o os b1 nsame ns rest h base).
+Qed.
+Print Assumptions C15_bitcoind_poller_handover.
+
 (** Composition with the wallet: a wallet consistent with the old best chain
     that is handed what the client emits for the new tip ends consistent with
     the new best chain - synced-to is the new tip, the stored hashes are those
